@@ -36,6 +36,7 @@ def main(argv=None):
     parser.add_argument("--replay")
     parser.add_argument("--no-evidence", action="store_true")
     parser.add_argument("--json", action="store_true", help=argparse.SUPPRESS)
+    parser.add_argument("--sequential-json", action="store_true", help=argparse.SUPPRESS)
     args = parser.parse_args(argv)
     prop = args.prop.upper()
 
@@ -50,6 +51,8 @@ def main(argv=None):
     if args.replay:
         return _replay(module, prop, args.replay, args.json)
 
+    if args.sequential_json:
+        return _sequential(module, prop, args.tier, args.seed)
     ctx = core.Ctx(args.tier, args.seed, args.jobs)
     # listed known findings never trigger the fail-fast stop (they are expected on this tree)
     core.KNOWN_KEYS.update(key for (pid, key) in findings.load() if pid == prop)
@@ -70,11 +73,17 @@ def main(argv=None):
     new, listed = [], []
     os.makedirs(REPLAY_DIR, exist_ok=True)
     # simplest counterexample first: fewest environment deviations / shortest case
-    part.violations.sort(key=lambda v: (len(v["case"].get("vector", ())) if
+    # ... and cases that carry their own history before cases that may depend on the order of
+    # the exploration
+    own = ("first", "pre", "history", "asked", "item", "ops", "script")
+    part.violations.sort(key=lambda v: (0 if isinstance(v["case"], dict) and
+                                        any(k in v["case"] for k in own) else 1,
+                                        len(v["case"].get("vector", ())) if
                                         isinstance(v["case"], dict) else 0,
                                         len(json.dumps(v["case"], default=repr))))
     unconfirmed = 0
     flaky = []
+    deferred = []
     for viol in part.violations:
         if (prop, viol["key"]) not in known and len(new) >= MAX_REPORTED:
             unconfirmed += 1            # beyond what is reported: not re-executed
@@ -90,32 +99,62 @@ def main(argv=None):
             print(f"HARNESS-ERROR: replay of {viol['key']} crashed")
             return 2
         if not again[0] or again[0] != again[1]:
-            # The in-process replay disagrees with the exploration: either the harness does not
-            # own some nondeterminism, or the code under test keeps state across calls/objects
-            # (a mutated class attribute, a module-level buffer).  Decide by replaying the
-            # recorded case in two *fresh* interpreters: identical non-empty results are a
-            # deterministic, self-contained violation; anything else is a harness error.
-            fresh = [_fresh_replay(prop, viol["case"]) for _ in range(2)]
-            if not fresh[0] or fresh[0] != fresh[1]:
-                flaky.append(f"violation {viol['key']} did not reproduce identically "
-                             f"(in-process {again[0]!r} vs {again[1]!r}; fresh processes "
-                             f"{fresh[0]!r} vs {fresh[1]!r}); msg was {viol['msg']!r}")
-                if len(flaky) >= 6:
-                    break
-                continue
-            viol["msg"] = fresh[0][0] + "  [state carried between calls: reproduced from a " \
-                                        "fresh interpreter]"
+            # not reproduced in this process: set aside; the cheap in-process confirmation of
+            # the remaining (possibly self-contained) counterexamples comes first
+            if len(deferred) < 60:
+                deferred.append((viol, again))
+            continue
         if (prop, viol["key"]) in known:
             listed.append(viol)
         else:
             new.append(viol)
 
+    t_confirm = time.time()
+    for viol, again in deferred if not new else ():
+        # The in-process replay disagrees with the exploration: either the harness does not
+        # own some nondeterminism, or the code under test keeps state across calls/objects
+        # (a mutated class attribute, a module-level buffer).  Decide by replaying the
+        # recorded case in two *fresh* interpreters: identical non-empty results are a
+        # deterministic, self-contained violation; anything else is a harness error.
+        fresh = [_fresh_replay(prop, viol["case"]) for _ in range(2)]
+        if not fresh[0] or fresh[0] != fresh[1]:
+            flaky.append(f"violation {viol['key']} did not reproduce identically "
+                         f"(in-process {again[0]!r} vs {again[1]!r}; fresh processes "
+                         f"{fresh[0]!r} vs {fresh[1]!r}); msg was {viol['msg']!r}")
+            if len(flaky) >= 24 or time.time() - t_confirm > 120:
+                break
+            continue
+        viol["msg"] = fresh[0][0] + "  [state carried between calls: reproduced from a " \
+                                    "fresh interpreter]"
+        if (prop, viol["key"]) in known:
+            listed.append(viol)
+        elif len(new) < MAX_REPORTED:
+            new.append(viol)
+    if new and deferred:
+        flaky = [f"violation {v['key']} was seen during the exploration but depends on what "
+                 f"was called before it" for v, _a in deferred[:2]]
+
     if flaky and not new:
-        # nothing reproduced deterministically: the harness does not own the nondeterminism
-        # (or the case is not self-contained) - no verdict
-        for line in flaky[:3]:
-            print("HARNESS-ERROR: " + line)
-        return 2
+        # No single case reproduces on its own.  If the code under test carries state from one
+        # call to the next *with different arguments* (a cache keyed too weakly), a violation
+        # belongs to the order of the exploration, not to one case - and the order of a
+        # parallel exploration is not reproducible.  The whole exploration run sequentially
+        # (one process, fixed order) is: two fresh interpreters must report the same non-empty
+        # list of violations, otherwise the harness does not own the nondeterminism - no verdict.
+        runs = [_fresh_sequential(prop, args.tier, args.seed) for _ in range(2)]
+        runs = [[kv for kv in (run or []) if (prop, kv[0]) not in known] for run in runs]
+        if runs[0] and runs[0] == runs[1]:
+            for key, msg in runs[0][:MAX_REPORTED]:
+                new.append({"key": key,
+                            "msg": msg + "  [depends on earlier calls with other arguments: "
+                                         "reproduced twice by the sequential exploration in a "
+                                         "fresh interpreter]",
+                            "case": {"kind": "sequential_run", "tier": args.tier,
+                                     "seed": args.seed, "key": key}})
+        else:
+            for line in flaky[:3]:
+                print("HARNESS-ERROR: " + line)
+            return 2
     for line in flaky[:2]:
         print("  note (not counted): " + line[:300])
     for viol in listed:
@@ -171,9 +210,50 @@ def _fresh_replay(prop, case):
         os.remove(path)
 
 
+def _sequential(module, prop, tier, seed):
+    """Hidden mode: the whole exploration in this one process, in list order; prints the
+    violations found (key, message) as one JSON line.  No confirmation, no evidence."""
+    try:
+        result = module.run(core.Ctx(tier, seed, 1))
+    except Exception:                                   # pylint: disable=broad-except
+        traceback.print_exc()
+        print("SEQUENTIAL-JSON null")
+        return 2
+    found = [[v["key"], str(v["msg"])] for v in result["part"].violations]
+    print("SEQUENTIAL-JSON " + json.dumps(found))
+    return 1 if found else 0
+
+
+def _fresh_sequential(prop, tier, seed):
+    import subprocess                                   # pylint: disable=import-outside-toplevel
+    try:
+        proc = subprocess.run([sys.executable, "-B", "-m", "mc.run", prop, "--tier", tier,
+                               "--seed", str(seed), "--sequential-json"], cwd=VERIF_ROOT,
+                              capture_output=True, text=True, timeout=3600, check=False)
+    except subprocess.TimeoutExpired:
+        return None
+    for line in proc.stdout.splitlines():
+        if line.startswith("SEQUENTIAL-JSON "):
+            return json.loads(line[len("SEQUENTIAL-JSON "):])
+    return None
+
+
 def _replay(module, prop, path, as_json=False):
     with open(path, encoding="utf-8") as handle:
         doc = json.load(handle)
+    if isinstance(doc.get("case"), dict) and doc["case"].get("kind") == "sequential_run":
+        case = doc["case"]
+        found = _fresh_sequential(prop, case["tier"], case["seed"]) or []
+        msgs = [m for k, m in found if k == case["key"]]
+        if as_json:
+            print("REPLAY-JSON " + json.dumps(msgs))
+            return 1 if msgs else 0
+        if msgs:
+            print(f"VIOLATION property={prop} replay={path}")
+            print("  what:", msgs[0])
+            return 1
+        print(f"{prop}: the sequential exploration no longer reports {case['key']} on this tree")
+        return 0
     msgs = module.replay(doc["case"])
     if as_json:
         if not msgs:
